@@ -174,6 +174,9 @@ func scopeFindingKey(r *caseResult, f *failure) string {
 	if typenameFieldClash(r.c) && strings.Contains(msg, "Typename__ redeclared") {
 		return "F-20j-typename-field-name-collision"
 	}
+	if blankHolder(r.c) && strings.Contains(msg, "s._ undefined") {
+		return "F-20l-holder-is-blank-identifier"
+	}
 	for _, n := range []string{"s", "b"} {
 		if hasEnumNamed(r.c, n) && strings.Contains(msg, ": "+n+" is not a type") {
 			return "F-20k-enum-type-shadowed-in-generated-method"
@@ -185,4 +188,49 @@ func scopeFindingKey(r *caseResult, f *failure) string {
 		}
 	}
 	return ""
+}
+
+// blankHolder reports whether some fragment holder of the case would be named `_`: a fragment named `_`
+// is spread, or a fragment is applied to a type named `_` (with a type condition, or without one inside
+// a selection on that type).
+func blankHolder(c *Case) bool {
+	var set func(parent string, ss []Sel) bool
+	set = func(parent string, ss []Sel) bool {
+		pt := c.Schema.Type(parent)
+		for _, s := range ss {
+			switch s.Kind {
+			case "s":
+				if s.Name == "_" {
+					return true
+				}
+			case "i":
+				cond := s.Cond
+				if cond == "" {
+					cond = parent
+				}
+				if cond == "_" || set(cond, s.Sels) {
+					return true
+				}
+			case "f":
+				if pt != nil && len(s.Sels) > 0 {
+					if fs := pt.Field(s.Name); fs != nil && set(fs.Type.Base(), s.Sels) {
+						return true
+					}
+				}
+			}
+		}
+		return false
+	}
+	for _, d := range c.Docs {
+		for _, def := range d.Defs {
+			root := def.Cond
+			if def.Kind != "frag" {
+				root = c.Schema.RootFor(def.Kind)
+			}
+			if set(root, def.Sels) {
+				return true
+			}
+		}
+	}
+	return false
 }
